@@ -311,6 +311,15 @@ class PTable(EngineBase):
                 return op
             if r < 0.95:
                 return {"op": "ppid", "h": rng.randrange(64)}
+            if r < 0.975:
+                # an open oneshot() block on the handle, with its stat
+                # record cached, while the table moves on
+                return rng.choice([
+                    {"op": "oneshot_enter", "h": rng.randrange(64)},
+                    {"op": "oneshot_enter", "h": rng.randrange(64)},
+                    {"op": "get", "h": rng.randrange(64), "m": "name"},
+                    {"op": "get", "h": rng.randrange(64), "m": "name"},
+                    {"op": "oneshot_exit", "h": rng.randrange(64)}])
             if r < 0.98:
                 return {"op": "iter", "consume": None}
             return {"op": "is_running", "h": rng.randrange(64)}
@@ -1422,6 +1431,8 @@ class PTable(EngineBase):
         tags = []
         if h.seen_gone:
             tags.append("handle_seen_gone")
+        if h.cms:
+            tags.append("oneshot_block_open")
         if out[0] == "exc":
             cls = exc_class(psutil, out[1])
             if cls not in ("NSP", "ZP", "AD"):
@@ -1440,6 +1451,11 @@ class PTable(EngineBase):
                                         self._pids_of(out[1])))
             return
         if gone:
+            return
+        if h.cms and kind in ("ppid", "parent", "parents"):
+            # inside an open oneshot() block these answer from the record
+            # cached at its first read (C16): not the current table
+            self._track_gone(psutil, st, op, out)
             return
         me = pre[h.pid]
         my_start = me[5]
